@@ -48,6 +48,10 @@ CHECKS["C15"] = dict(engine="filter", level=("model_checking", "TLC proves on th
     note="parser precedence is not judged; NOT is rejected by the parser and therefore outside the accepted expressions; end-to-end index presence/absence is covered by the system driver when registered",
     technique="TLA+ spec (Filter.tla/MCFilter.tla) model-checked by TLC + trace validation (TraceFilter.tla) of the real sqe evaluators")
 
+CHECKS["C18"] = dict(engine="wire", level=("model_checking", "Wire.tla contains a byte-level protobuf decoder for StoreData and Array/Item written in TLA+; TLC proves Decode(Encode(m)) = m over a tiny alphabet (MCWire) and then decodes the ACTUAL bytes produced by the hand-written encoders (ProtoingFast, VTproto, Map.MarshalFast) and by the standard encoder for random contents, comparing with the logged content; the cross-reading results of every Go decoder on every encoder's bytes and the size reported by unmarshalVT are judged in the same trace.", "6/C18"),
+    note="edge of what TLA+ is for: messages of thousands of entries only in the thorough tier (decoder cost grows with entries); 64-bit numbers as 7-bit limbs; Go-side content equality flags trusted",
+    technique="TLA+ byte-level wire-format spec (Wire.tla) checked by TLC + trace validation (TraceWire.tla) decoding the real encoders' bytes")
+
 NOT_YET = "machinery for this property is not built yet in this revision (work in progress; see DESIGN.md section 9 for the plan)"
 
 
